@@ -61,7 +61,10 @@ type Scenario struct {
 	// RestartAgg: the aggregator is stopped cleanly and started again once it has produced this many blocks
 	// (0: never). Only drawn when the full node can also learn the chain from the DA layer: nothing makes a
 	// full node redial a restarted peer promptly.
-	RestartAgg    int    `json:"restart_agg,omitempty"`
+	RestartAgg int `json:"restart_agg,omitempty"`
+	// SubmitDelayMs: the DA layer answers an accepted submission only after this long, whatever happened to
+	// the submitter's context meanwhile (an answer that is on its way when the node is asked to stop).
+	SubmitDelayMs int    `json:"submit_delay_ms,omitempty"`
 	CustomPayload bool   `json:"custom_payload,omitempty"`
 	KeyLabel      string `json:"key_label,omitempty"`
 }
@@ -113,6 +116,12 @@ type Result struct {
 	Stall string
 	// AggStall is set when the aggregator stopped producing / including (confirmed).
 	AggStall string
+	// IncStall is set when the aggregator, restarted cleanly, no longer reports as DA-included the blocks it
+	// had produced before the restart although the DA layer accepts everything (confirmed stall).
+	IncStall string
+	// StopLivelock is set when a node did not stop within the stop window and one of its loops was found
+	// executing (never waiting) in four goroutine dumps over 22 s: a busy loop that ignores the stop request.
+	StopLivelock string
 	// Injected lists every transaction handed to the aggregator's mempool, in order.
 	Injected [][]byte
 }
@@ -227,6 +236,7 @@ func Run(sc Scenario, dir string) *Result {
 	gen := world.MakeGenesis(base, pub)
 	res.Genesis = gen
 	da := world.NewDADbl(0)
+	da.SubmitDelay = time.Duration(sc.SubmitDelayMs) * time.Millisecond
 	mk := func(name string, agg bool) *Proc {
 		o := base
 		o.Aggregator = agg
@@ -269,9 +279,15 @@ func Run(sc Scenario, dir string) *Result {
 		// never leave a node running
 		if b.cancel != nil && !b.stop() {
 			res.Labels = append(res.Labels, "full-node-stop-slow")
+			if fn := world.BusyLoop(); fn != "" && res.StopLivelock == "" {
+				res.StopLivelock = fmt.Sprintf("the full node did not stop within %s after the stop request; %s has been executing without ever waiting (same goroutine in four goroutine dumps over 22 s)", StopWindow, fn)
+			}
 		}
 		if a.cancel != nil && !a.stop() {
 			res.Labels = append(res.Labels, "aggregator-stop-slow")
+			if fn := world.BusyLoop(); fn != "" && res.StopLivelock == "" {
+				res.StopLivelock = fmt.Sprintf("the aggregator did not stop within %s after the stop request; %s has been executing without ever waiting (same goroutine in four goroutine dumps over 22 s)", StopWindow, fn)
+			}
 		}
 	}()
 	if err := a.start(sgn, mo); err != nil {
@@ -318,10 +334,12 @@ func Run(sc Scenario, dir string) *Result {
 	}
 	// phase 1: the aggregator produces (transactions are injected at the scripted points)
 	aggRestarted := false
+	aggHeightAtRestart := uint64(0)
 	ok, stalled := waitProgress(func() bool {
 		inject()
 		if sc.RestartAgg > 0 && !aggRestarted && produced() >= sc.RestartAgg {
 			aggRestarted = true
+			aggHeightAtRestart = a.Height()
 			if !a.stop() {
 				res.Inconclusive = "aggregator did not stop within the stop window"
 				res.Labels = append(res.Labels, "aggregator-stop-slow")
@@ -435,14 +453,29 @@ func Run(sc Scenario, dir string) *Result {
 	if res.Inconclusive != "" {
 		return res
 	}
+	// a cleanly restarted aggregator must again report as DA-included what it had produced before the restart
+	// (its submissions are accepted; the inclusion marks were saved at shutdown)
+	if aggRestarted && aggHeightAtRestart >= first && a.Node != nil {
+		inc := func() uint64 { return a.Node.VerifBlockManager().GetDAIncludedHeight() }
+		_, stalled := waitProgress(func() bool { return inc() >= aggHeightAtRestart }, inc, aggGone)
+		if stalled {
+			res.IncStall = fmt.Sprintf("the aggregator was stopped cleanly at height %d and started again; the DA layer accepts every submission, yet for %s its DA-included height has stayed at %d (chain height %d)", aggHeightAtRestart, StallWindow+StallConfirm, inc(), a.Height())
+		}
+	}
 	// let the aggregator's DA submissions and the full node's DA-inclusion settle a little (best effort)
 	time.Sleep(time.Duration(3*sc.DAMs) * time.Millisecond)
 	mu.Lock()
 	if !b.stop() {
 		res.Labels = append(res.Labels, "full-node-stop-slow")
+		if fn := world.BusyLoop(); fn != "" {
+			res.StopLivelock = fmt.Sprintf("the full node did not stop within %s after the stop request; %s has been executing without ever waiting (same goroutine in four goroutine dumps over 22 s)", StopWindow, fn)
+		}
 	}
 	if !a.stop() {
 		res.Labels = append(res.Labels, "aggregator-stop-slow")
+		if fn := world.BusyLoop(); fn != "" && res.StopLivelock == "" {
+			res.StopLivelock = fmt.Sprintf("the aggregator did not stop within %s after the stop request; %s has been executing without ever waiting (same goroutine in four goroutine dumps over 22 s)", StopWindow, fn)
+		}
 	}
 	mu.Unlock()
 	return res
